@@ -44,6 +44,7 @@ def _case(t):
     name = 'in' + ext
     problems = []
     observed = []
+    leftovers = []
     top = case_dir('c10')
 
     def fresh(tag):
@@ -76,8 +77,11 @@ def _case(t):
         def created(tag, d, allowed):
             snap = snapshot(d)
             extra = sorted(set(snap) - set(allowed) - {name})
-            if extra:
+            if extra and ref_key[0] == 0:
                 problems.append('%s: unexpected files %s' % (tag, extra))
+            elif extra:
+                # the input is refused (formatting fails): a temporary file left behind is outside this property (C13 records it)
+                leftovers.append((tag, extra))
             return snap
 
         for lopt, ltag in ((['-l', lang], 'l'), ([], 'ext')):
